@@ -391,6 +391,15 @@ def solve_one(job):
     final = r
     if r == "sat":
         res["model"] = model
+    if final == "unknown" and "String" not in smt2:
+        # a second short attempt with another seed BEFORE the 60 s race: set / relation queries that one e-matching order misses are typically
+        # decided at once by another one (observed: 'unknown' after 3 s, 'unsat' in 0.2 s with seed + 1; the same query is 'unsat' in 0.1 s for
+        # every seed in a fresh process) -- without this such an obligation waits for the whole race to time out
+        r1, dt1, model1, reason1 = _check_z3(smt2, 3000, seed + 1)
+        note("z3-5.1-seed2", r1, dt1, reason=reason1)
+        final = r1
+        if r1 == "sat":
+            res["model"] = model1
     if final == "unknown":
         # race pure MBQI (z3, e-matching off: decides the set/relation queries on which e-matching loops) against cvc5
         # (decides most string queries); the first definite answer wins
